@@ -358,8 +358,10 @@ def finish(ctx, level, rule, assumptions, extra=None):
         cov.update(extra)
     ev = dict(property_id=ctx.pid, tier=ctx.tier, seed=ctx.seed, level=level, coverage=cov,
               assumptions=assumptions, wall_s=round(time.time() - ctx.t0, 1), violations=len(ctx.violations))
-    os.makedirs(f'{VERIF}/evidence', exist_ok=True)
-    with open(f'{VERIF}/evidence/{ctx.pid}.json', 'w') as f:
+    # (experiments against a scratch tree - VERIF_REPO set - must not overwrite the evidence of the real tree)
+    evdir = f'{VERIF}/evidence' if 'VERIF_REPO' not in os.environ else f'{ctx.work}/evidence'
+    os.makedirs(evdir, exist_ok=True)
+    with open(f'{evdir}/{ctx.pid}.json', 'w') as f:
         json.dump(ev, f, indent=1, default=str)
     for k in ctx.known:
         log(f'KNOWN-FINDING: property={ctx.pid} {k["text"]}')
